@@ -34,6 +34,14 @@ CHECKS = {
         note="hand-typed CODATA factors (5e-9 relative slack for CODATA releases); Molden/Molekel layouts by C05's writers; FCHK/WFN/WFX/MWFN/logs by the metamorphic part and C01",
         design="DESIGN.md §2 C03",
     ),
+    "C04": dict(
+        level="exploration",
+        technique="exhaustive enumeration of the (quantity x format x format) table on the real loaders/writers with files from independent writers in each format's prescribed unit, hand-typed CODATA constants, physical anchors on corpus files",
+        text="All 10 unit constants; one system written in 15 format variants (angstrom/nm/bohr/fractional, ps, nm/ps, amu, eV, electrons per cell): each format vs the model and every ordered pair of formats per quantity; every iodata writer's "
+        "output parsed for the prescribed unit; masses of program-written files against standard atomic weights and Q-Chem moments against the printed Debye values.",
+        note="5e-9 relative slack between CODATA releases; extended-XYZ energy/forces documented as passed through",
+        design="DESIGN.md §2 C04",
+    ),
     "C05": dict(
         level="exploration",
         technique="exhaustive product (shell subsets x Cartesian/pure x 7 vendor encodings) + deviation-bounded variation of container/orbitals/threshold/corruption on the real Molden/Molekel loaders, independent encoders and evaluator",
